@@ -61,6 +61,9 @@ EmptyIdx(ss) == LET f[k \in 0..Len(ss)] == IF k = 0 THEN <<>> ELSE IF ss[k].empt
 InitWith(ss, pr) ==
     /\ segs = ss /\ par = pr /\ order = <<>> /\ i = 0 /\ j = 0 /\ cum = <<>> /\ prev = <<>> /\ best = 1
     /\ result = <<>> /\ pc = "preorder"
+StartWith(ss, pr) ==
+    /\ segs' = ss /\ par' = pr /\ order' = <<>> /\ i' = 0 /\ j' = 0 /\ cum' = <<>> /\ prev' = <<>> /\ best' = 1
+    /\ result' = <<>> /\ pc' = "preorder"
 
 KeyOfIdx(k) == Key(segs[k])
 PreOrder ==
